@@ -1,9 +1,9 @@
 package props
 
 import (
-	"go/types"
 	"fmt"
 	"go/token"
+	"go/types"
 	"sort"
 	"strings"
 
@@ -69,6 +69,7 @@ func checkC18(c *fw.Ctx) {
 	checkF6(c)
 	checkF7(c)
 	checkF8(c)
+	checkF9(c)
 	// a v12 event must stay a v12 event: an eventV2 copy of it panics in RoomID() (shared with C03.9)
 	checkDerivedTypePreserved(c)
 }
@@ -669,6 +670,12 @@ func checkF8(c *fw.Ctx) {
 					}
 				}
 				construct := fw.FuncName(fn) + ": *StateKey() is dereferenced only after a nil test"
+				if guarded == "" {
+					if h := unknownGuardOn(b, ev); h != "" {
+						c.Undecided(rule, construct, "the dereference is dominated by a test through the repository helper "+h+" applied to the event: the rule does not know whether it implies a state key")
+						continue
+					}
+				}
 				if guarded != "" {
 					c.Ok(rule, construct, c.P.Pos(fw.InstrPos(u)), guarded)
 				} else {
@@ -678,4 +685,40 @@ func checkF8(c *fw.Ctx) {
 		}
 	}
 	c.Min(rule+" dereferences", n, 5)
+}
+
+// unknownGuardOn: a dominating branch condition calls an unexported repository helper with the
+// event as an argument: a guard the rule cannot interpret (no positive evidence either way).
+func unknownGuardOn(b *ssa.BasicBlock, ev string) string {
+	for _, f := range fw.DomConds(b) {
+		found := ""
+		var walk func(v ssa.Value, d int)
+		walk = func(v ssa.Value, d int) {
+			if v == nil || d > 5 || found != "" {
+				return
+			}
+			if call, ok := v.(*ssa.Call); ok {
+				if h := fw.Followable(call, nil); h != nil && !h.Object().Exported() {
+					for _, a := range call.Common().Args {
+						if fw.Sig(a) == ev {
+							found = fw.FuncName(h)
+							return
+						}
+					}
+				}
+			}
+			if ins, ok := v.(ssa.Instruction); ok {
+				for _, op := range ins.Operands(nil) {
+					if *op != nil {
+						walk(*op, d+1)
+					}
+				}
+			}
+		}
+		walk(f.If.Cond, 0)
+		if found != "" {
+			return found
+		}
+	}
+	return ""
 }
